@@ -126,6 +126,26 @@ def bad_follow(prev, nxt):
         return True
     return False
 
+def adjacency_cases():
+    """every punctuation symbol directly after every kind of name or literal, and directly before one: the token
+    parser must not glue a free-standing symbol to its neighbour"""
+    prevs = [("foo", "foo", ["i" + hx("foo")]), ("#:key", "#:key", ["p35j", "p58a", "i" + hx("key")]), (":k", "#:k", ["p58a", "i" + hx("k")]),
+             ("\"s\"", "\"s\"", ["ls%s/%s" % (hx("s"), hx("s"))]), ("7", "7", ["li7"]), ("#t", "#t", ["p35a", "i" + hx("t")])]
+    out = []
+    for p in PUNCT:
+        for (psrc, ptext, ptoks) in prevs:
+            a = Node(psrc, ptext, ptoks)
+            b = Node(p, p, punct_toks(p))
+            c = Node("y", "y", ["i" + hx("y")])
+            for elems in ([a, b, c], [b, a], [a, b]):
+                if any(bad_follow(elems[i], elems[i + 1]) for i in range(len(elems) - 1)):
+                    continue
+                src = "(" + " ".join(e.src for e in elems) + ")"
+                text = "(" + " ".join(e.text for e in elems) + ")"
+                inner = [t for e in elems for t in e.toks]
+                out.append(Node(src, text, ["g%d" % len(inner)] + inner))
+    return out
+
 def tree(r, depth):
     if depth == 0 or r.random() < 0.35:
         return atom(r)
@@ -221,6 +241,9 @@ def run(prop, tier, seed, workdir, harness, driver):
             if t.text is None:
                 continue
             cases.append(t)
+        if b == 0:
+            adj = adjacency_cases()
+            cases = cases[:max(0, per - len(adj))] + adj
         for fs, sig, e in FIXED_OUTSIDE_WINDOW:
             cases.append(Node(fs, fs, ["lf%de%d" % (sig, e)]))
         os.makedirs(os.path.join(BUILD, "src"), exist_ok=True)
